@@ -23,13 +23,13 @@ PROP = 'C07'
 TRUSTED = [
     'modelled, not verified: genshi/input.py HTMLParser/XMLParser callback layer, _generate loops, _coalesce (hand-written Lean model Genshi.Parse, tied by replaying recorded callback batches through gdrv)',
     'not modelled, only exercised: html.parser.HTMLParser and pyexpat/Expat (the theorems quantify over every callback sequence they could make); codecs stream readers',
-    'opaque in the model: genshi.util.stripentities (parameter `strip`, instantiated per case with what the real function returned) and str.lower (ASCII in the driver; cases with other cased letters in tag names are counted as unmodelled)',
+    'the theorems quantify over every stripentities and every str.lower; the driver runs the real environment: genshi.util.stripentities as modelled by work package san (Genshi.San.stripentities) and str.lower as per-character table + final-sigma rule generated from the running interpreter (Gen/Parse.lean), both compared with the real functions on every run (streams env-strip, env-lower)',
     'XML oracle for ill-formed text is a second Expat instance (same library, separate parser object and own handlers)',
 ]
 ASSUMPTIONS = [
     'tokenizer contract (checked on every recorded batch): tag names passed to handle_starttag do not begin with "{" (needed for the void-element clause only)',
-    'strings are sequences of Unicode scalar values (lone surrogates: known finding C07-xml-surrogate)',
-    'XML: no reference to an undefined entity inside an attribute value (known finding C07-xml-attr-undefined-entity), no namespace URI beginning with "{" (known finding C07-xml-brace-namespace), no external general entities',
+    'model side: strings are sequences of Unicode scalar values (cases with lone surrogates are run through the oracle only)',
+    'XML: no reference to an undefined entity inside an attribute value (known finding C07-xml-attr-undefined-entity), no namespace URI beginning with "{" (known finding C07-xml-brace-namespace)',
     'the `encoding` argument names an existing codec (codecs.getreader is called outside the try block)',
 ]
 
@@ -422,15 +422,14 @@ def oracle_xml_tree(case):
     doc = case['doc']
     text = G.write_xml(doc, random.Random(case.get('wseed', 0)))
     want = G.tree_events(doc)
-    if not has_surrogate(text):
-        # the premise "well-formed document", decided by an independent Expat (its own handlers, no genshi): the
-        # generator only writes well-formed documents, but a shrunk or hand-written tree (empty names, duplicate
-        # attributes, ...) may not be one; the property says nothing about the tree it was written from then.
-        from xml.parsers import expat
-        ref = IndependentExpat().run(text.encode('utf-8'))
-        if ref[0] == 'err' and ref[3] != expat.errors.codes[expat.errors.XML_ERROR_UNDEFINED_ENTITY]:
-            stat('oracle:xml-tree:not-well-formed')
-            return None
+    # the premise "well-formed document", decided by an independent Expat (its own handlers, no genshi): the
+    # generator only writes well-formed documents, but a shrunk or hand-written tree (empty names, duplicate
+    # attributes, lone surrogates ...) may not be one; the property says nothing about the tree it was written from then.
+    from xml.parsers import expat
+    ref = IndependentExpat().run(text.encode('utf-8', 'surrogatepass'))
+    if ref[0] == 'err' and ref[3] != expat.errors.codes[expat.errors.XML_ERROR_UNDEFINED_ENTITY]:
+        stat('oracle:xml-tree:not-well-formed')
+        return None
     try:
         ev, ex = list(gi.XML(text)), None
     except BaseException as e2:   # noqa
@@ -451,9 +450,10 @@ def oracle_xml_tree(case):
     if s:
         return fail(case, 'XML stream is well nested and has no adjacent text', 'well-formed stream', s)
     flat = [cev(e) for e in ev]
-    # the incremental reader. A str source is handed to Expat as UTF-8 (hence encoding='utf-8', as XML()
-    # does); a bytes source in the encoding its declaration names is left to Expat.
-    sources = [('character', text, 'utf-8')]
+    # the incremental reader. A character source is a decoded document: what its XML declaration says about the
+    # encoding (also an unknown name) and the `encoding` argument do not apply to it; a bytes source in the
+    # encoding its declaration names is left to Expat.
+    sources = [('character', text, None), ('character', text, 'utf-8'), ('character', text, 'iso-8859-1')]
     declared = (doc['decl'] or [None, None])[1]
     try:
         if declared is None or declared.lower() == 'utf-8':
@@ -464,10 +464,20 @@ def oracle_xml_tree(case):
         pass
     for size in xml_chunkings(text):
         for what, src, enc in sources:
+            if what == 'character' and enc is not None and size != 7:
+                continue
             e3, x3 = drain(gi.XMLParser(G.ChunkReader(src, size), encoding=enc))
             if x3 is not None or [cev(e) for e in e3] != flat:
-                return fail(case, 'chunking invariance of XMLParser (%d-%s chunks)' % (size, what),
+                return fail(case, 'chunking invariance of XMLParser (%d-%s chunks, encoding=%r)' % (size, what, enc),
                             trim(flat), exc_desc(x3) + [str(x3)[:100]] if x3 is not None else trim([cev(e) for e in e3]))
+    if declared == 'x-bogus':
+        # bytes whose declaration names an encoding nobody knows: not a document the parser can process
+        for size in [None, 7]:
+            src = io.BytesIO(text.encode('utf-8')) if size is None else G.ChunkReader(text.encode('utf-8'), size)
+            e3, x3 = drain(gi.XMLParser(src))
+            if not isinstance(x3, gi.ParseError) or x3.lineno != 1:
+                return fail(case, 'bytes with an XML declaration naming an unknown encoding raise ParseError with the line of the declaration',
+                            ['ParseError', 1], exc_desc(x3) if x3 is not None else trim([cev(e) for e in e3]))
     return None
 
 
@@ -546,10 +556,20 @@ def oracle_xml_text(case):
         ev, ex = [], e2
     if ex is not None and not isinstance(ex, gi.ParseError):
         return fail(case, 'only ParseError may escape the XML parser', 'ParseError or a stream', 'Other:' + type(ex).__name__ + ': ' + str(ex)[:200])
-    if has_surrogate(text):
-        return None
+    # the same document as a file holds it (in the encoding it declares, if Python can encode it so), and as a
+    # character source given to XMLParser directly: whatever the declaration says, nothing but ParseError escapes
+    data = xml_bytes(text) if not case.get('light') else None
+    for label, mk in ([('XMLParser(BytesIO(document))', lambda: gi.XMLParser(io.BytesIO(data)))] if data is not None else []) + \
+            ([('XMLParser(StringIO(document))', lambda: gi.XMLParser(io.StringIO(text)))] if not case.get('light') else []):
+        e4, x4 = drain(mk())
+        if x4 is not None and not isinstance(x4, gi.ParseError):
+            return fail(case, '%s: only ParseError may escape the XML parser' % label, 'ParseError or a stream', 'Other:' + type(x4).__name__ + ': ' + str(x4)[:200])
+        if label.startswith('XMLParser(StringIO') and (exc_desc(x4) != exc_desc(ex) or (ex is None and [cev(e) for e in e4] != [cev(e) for e in ev])):
+            return fail(case, 'XML(text) is XMLParser(StringIO(text)) iterated', exc_desc(ex) if ex is not None else trim([cev(e) for e in ev]),
+                        exc_desc(x4) if x4 is not None else trim([cev(e) for e in e4]))
     refp = IndependentExpat()
-    ref = refp.run(text.encode('utf-8'))
+    # a lone surrogate is no character: the reference is given it the way such a code point stands in a UTF-8 file
+    ref = refp.run(text.encode('utf-8', 'surrogatepass'))
     if refp.skipped:
         # the document has an external DTD subset, which the reference does not read: it passes over references to
         # entities it has no declaration for, while genshi reads its HTML entity set in place of any external subset
@@ -797,29 +817,79 @@ def record_html(make_source, encoding=None):
     return script, ev, ex
 
 
-def strip_table(script):
+ENV_SEEN = set()
+
+
+def env_jobs(script):
+    """the two functions of the environment, on what this script hands them and this process has not asked yet:
+    (stream, argument, request, real answer)"""
     gi, _ = genshi_mods()
-    vals = []
+    out = []
+    seen = ENV_SEEN
     for items in [r[1] for r in script['reads'] if r[0] == 't'] + [script['close']]:
         for it in items:
+            if it[0] in ('st', 'se', 'et') and ('l', it[1]) not in seen:
+                seen.add(('l', it[1]))
+                out.append(env_lower_job(it[1]))
+                if '{' in it[1] or '}' in it[1]:
+                    out.append(env_qname_job(it[1]))
             if it[0] in ('st', 'se'):
                 for n, v in it[2]:
-                    vals.append(n if v is None else v)
-    table = []
-    seen = set()
-    for v in vals:
-        if v in seen:
-            continue
-        seen.add(v)
-        try:
-            table.append([v, [Atom('ok'), gi.stripentities(v)]])
-        except Exception as e:   # noqa
-            table.append([v, [Atom('err'), type(e).__name__]])
-    return table
+                    v = n if v is None else v
+                    if ('s', v) not in seen:
+                        seen.add(('s', v))
+                        out.append(env_strip_job(v))
+    return [j for j in out if j is not None]
 
 
-def ascii_lower(s):
-    return ''.join(chr(ord(c) + 32) if 'A' <= c <= 'Z' else c for c in s)
+def env_lower_job(t):
+    if has_surrogate(t):
+        return None
+    return ('env-lower', t, proto.line(Atom('C07'), Atom('lower'), t), t.lower())
+
+
+def env_qname_job(t):
+    """genshi.core.QName(str) against mkQName: (namespace or '', localname)"""
+    _, gc = genshi_mods()
+    if has_surrogate(t):
+        return None
+    q = gc.QName(t)
+    return ('env-qname', t, proto.line(Atom('C07'), Atom('qname'), t), [q.namespace or '', q.localname])
+
+
+QNAME_ALPHABET = ['{', '{', '}', '}', 'a', 'u', ':', 'http://x', ' ', '', '\xe9']
+
+
+def env_strip_job(v):
+    gi, _ = genshi_mods()
+    if has_surrogate(v):
+        return None
+    try:
+        real = [Atom('ok'), gi.stripentities(v)]
+    except Exception as e:   # noqa
+        real = [Atom('err'), type(e).__name__]
+    if has_surrogate(real):
+        return None
+    return ('env-strip', v, proto.line(Atom('C07'), Atom('unent'), v), real)
+
+
+LOWER_ALPHABET = ['\u03a3', '\u03a3', 'a', 'A', '.', '\u0301', "'", ' ', '1', '\u03c3', '\u03c2', '\u0130', '\u01c5', '\xad', '\u02b0', 'Z', '-', ':',
+                  '\U0001d400', '\xdf', '\u1e9e', '\u2160', '\u24b6', '\U00010400', '\xb7', '\u0345', 'I', '\u212a']
+STRIP_PARTS = ['&', '&amp;', '&#65;', '&#x41;', '&#X41', '&#1114112;', '&#xD800;', '&#55296', '&nbsp;', '&junk;', '&lt', ';', 'x', '#', '&#',
+               '&#99999999999999999999;', '&#x110000', '&hellip;', '&#\u0663;', '&\xe9t\xe9;', '&#x;', ' ', '&amp;amp;', '&#0;', '&#' + '9' * 4301 + ';']
+
+
+def gen_env_jobs(rng, n):
+    out = []
+    for _ in range(n):
+        if rng.random() < 0.25:
+            out.append(env_qname_job('{' * rng.choice([0, 0, 1, 2, 3]) + ''.join(rng.choice(QNAME_ALPHABET) for _ in range(rng.randrange(0, 8)))))
+        elif rng.random() < 0.5:
+            out.append(env_lower_job(''.join(rng.choice(LOWER_ALPHABET) if rng.random() < 0.9 else G.rand_char(rng)
+                                             for _ in range(rng.randrange(0, 8)))))
+        else:
+            out.append(env_strip_job(''.join(rng.choice(STRIP_PARTS) for _ in range(rng.randrange(0, 5)))))
+    return [j for j in out if j is not None]
 
 
 def pos_wire(it):
@@ -847,20 +917,18 @@ def html_line(script):
             reads.append(Atom('B'))
         else:
             reads.append([Atom('F'), r[1], B(r[2] if len(r) > 2 else is_exception_name(r[1]))])
-    for items in [r[1] for r in script['reads'] if r[0] == 't'] + [script['close']]:
-        for it in items:
-            if it[0] in ('st', 'se', 'et') and it[1].lower() != ascii_lower(it[1]):
-                return None
-    table = strip_table(script)
-    if has_surrogate(table):
-        return None
-    return proto.line(Atom('C07'), Atom('html'), reads, [html_item_wire(i) for i in script['close']], table)
+    return proto.line(Atom('C07'), Atom('html'), reads, [html_item_wire(i) for i in script['close']])
 
 
 def outcome_wire(events, ex):
     """what the real code did, in the answer vocabulary of the driver (events with their positions)"""
     gi, _ = genshi_mods()
-    evs = [[wire_ev(cev(e)), Atom(str(int(e[2][1]))), Atom(str(int(e[2][2])))] for e in events]
+    def posw(e):
+        try:
+            return [Atom(str(int(e[2][1]))), Atom(str(int(e[2][2])))]
+        except Exception:   # noqa: a position that is no (filename, int, int) - the oracle reports it (check_types)
+            return [Atom('nopos'), Atom('nopos')]
+    evs = [[wire_ev(cev(e))] + posw(e) for e in events]
     if ex is None:
         return [evs, Atom('ok')]
     if isinstance(ex, gi.ParseError):
@@ -985,6 +1053,10 @@ def _xml_classes():
             self.k = 0
             self.CurrentLineNumber = 1
             self.CurrentColumnNumber = 0
+            # what pyexpat shows after a handler (or anything else that is not Expat's own) raised: "parsing aborted"
+            self.ErrorCode = expat.errors.codes[expat.errors.XML_ERROR_ABORTED]
+            self.ErrorLineNumber = 1
+            self.ErrorColumnNumber = 0
 
         def Parse(self, data, final=False):
             if final:
@@ -997,7 +1069,7 @@ def _xml_classes():
             o = self.owner
             for it in items:
                 k = it[0]
-                if k not in ('raise', 'xerr'):
+                if k not in ('raise', 'xerr', 'xenc'):
                     self.CurrentLineNumber, self.CurrentColumnNumber = it[-2], it[-1]
                 if k == 'se':
                     o._handle_start(it[1], [x for pair in it[2] for x in pair])
@@ -1027,6 +1099,13 @@ def _xml_classes():
                     e = expat.error('scripted: line %d, column %d' % (it[1], it[2]))
                     e.code, e.lineno, e.offset = 2, it[1], it[2]
                     raise e
+                elif k == 'xenc':
+                    # pyexpat's unknown-encoding handler failed: Expat stops with UNKNOWN_ENCODING at the XML
+                    # declaration and the exception of Python's codec machinery comes out of Parse()
+                    self.ErrorCode = expat.errors.codes[expat.errors.XML_ERROR_UNKNOWN_ENCODING]
+                    self.ErrorLineNumber, self.ErrorColumnNumber = it[1], it[2]
+                    raise [LookupError('unknown encoding: scripted'), ValueError('multi-byte encodings are not supported'),
+                           UnicodeError('undefined encoding')][(it[1] + it[2]) % 3]
                 elif k == 'raise':
                     raise make_exc(it[1])
                 else:
@@ -1042,13 +1121,23 @@ def _xml_classes():
             r = self.reads[self.k]
             self.k += 1
             if r[0] == 't':
-                return b'x' if self.k % 2 else 'x'
+                return b'x' if (self.k + len(self.reads)) % 2 else 'x'      # a character source or a byte source first
             raise make_exc(r[1])
 
+    class SynXML(gi.XMLParser):
+        """genshi's layer driven by a scripted Expat"""
+
+        def __init__(self, script):
+            self._c07_script = script
+            gi.XMLParser.__init__(self, SynXSource(script['reads']))
+            if not isinstance(self.expat, FakeExpat):
+                self.expat = FakeExpat(self, script)
+
+        def _create_parser(self, encoding):
+            return FakeExpat(self, self._c07_script)
+
     def syn_xml(script):
-        p = gi.XMLParser(SynXSource(script['reads']))
-        p.expat = FakeExpat(p, script)
-        return p
+        return SynXML(script)
 
     gi._c07_xml_classes = (RecXML, syn_xml)
     return gi._c07_xml_classes
@@ -1067,12 +1156,31 @@ def record_xml(make_source, encoding=None):
         ctx = ex.__context__ if isinstance(ex, gi.ParseError) else ex
         if isinstance(ctx, expat.ExpatError):
             item = ['xerr', ctx.lineno, ctx.offset]
+        elif (isinstance(ctx, (LookupError, ValueError)) and getattr(p, 'expat', None) is not None
+              and p.expat.ErrorCode == expat.errors.codes[expat.errors.XML_ERROR_UNKNOWN_ENCODING]):
+            # pyexpat let the exception of Python's codec machinery through; the position is Expat's own
+            item = ['xenc', p.expat.ErrorLineNumber, p.expat.ErrorColumnNumber]
         else:
             item = ['raise', type(ctx).__name__, isinstance(ctx, Exception)]
-            if isinstance(ctx, UnicodeEncodeError):
-                modelled = False     # text.encode('utf-8') fails on lone surrogates only: outside Lean's Char
         (p.cur if p.cur is not None else p.closeb).append(item)
     return script, ev, ex, modelled
+
+
+XML_DECL_ENC = re.compile(r'''^<\?xml[^>]*?encoding\s*=\s*["']([^"']*)["']''')
+
+
+def xml_bytes(text):
+    """the document as a file would hold it: in the encoding its XML declaration names when Python can encode it
+    that way, else (no declaration, unknown name, unencodable character) as UTF-8; None for lone surrogates"""
+    if has_surrogate(text):
+        return None
+    m = XML_DECL_ENC.match(text)
+    if m:
+        try:
+            return text.encode(m.group(1))
+        except (LookupError, ValueError):      # unknown name, unencodable character, a name that is none (NUL in it)
+            pass
+    return text.encode('utf-8')
 
 
 def xml_item_wire(it):
@@ -1102,6 +1210,8 @@ def xml_item_wire(it):
         return [Atom('DF'), it[1]] + pos_wire(it)
     if k == 'xerr':
         return [Atom('XERR'), Atom(str(it[1])), Atom(str(it[2]))]
+    if k == 'xenc':
+        return [Atom('XENC'), Atom(str(it[1])), Atom(str(it[2]))]
     if k == 'raise':
         return [Atom('RAISE'), it[1], B(it[2] if len(it) > 2 else is_exception_name(it[1]))]
     raise ValueError(it)
@@ -1205,7 +1315,8 @@ def xml_line(script):
 # --------------------------------------------------------------------------
 # scripted callback sequences (what no tokenizer need ever produce)
 
-SYN_TAGS = ['a', 'b', 'p', 'br', 'img', 'BR', 'Br', 'A', 'hr', 'input', 'div', '{br', 'x}br', '{u}a', 'a{b', '}', '{', '', 'é']
+SYN_TAGS = ['a', 'b', 'p', 'br', 'img', 'BR', 'Br', 'A', 'hr', 'input', 'div', '{br', 'x}br', '{u}a', 'a{b', '}', '{', '', 'é', 'É',
+            'a\u03a3', 'a\u03c3', 'A\u03c2', '\u03a3', '\u0130', 'i\u0307', '\u01c5', '\u01c6', 'a:b', 'A:B']
 
 
 def gen_syn_html(rng, tags_ok_only=False):
@@ -1302,13 +1413,15 @@ def gen_syn_xml(rng):
             return ['cm', rng.choice(['', ' c '])]
         if r < 0.97:
             return ['df', rng.choice(['&nbsp;', '&junk;', '&amp;', '&', '&;', 'x', '', '<!ENTITY', '&eacute;', '&Eacute;', '&nbsp', '&&nbsp;;']), rng.randrange(1, 9), rng.randrange(0, 80)]
-        if r < 0.985:
+        if r < 0.98:
             return ['xerr', rng.randrange(1, 9), rng.randrange(0, 80)]
-        return ['raise', rng.choice(['ValueError', 'NotAnException'])]
+        if r < 0.99:
+            return ['xenc', rng.randrange(1, 9), rng.randrange(0, 80)]
+        return ['raise', rng.choice(['ValueError', 'NotAnException', 'KeyError', 'UnicodeDecodeError', 'OSError'])]
 
     def item():
         it = item0()
-        return it if it[0] in ('raise', 'xerr', 'df') else it + [rng.randrange(1, 60), rng.randrange(0, 200)]
+        return it if it[0] in ('raise', 'xerr', 'xenc', 'df') else it + [rng.randrange(1, 60), rng.randrange(0, 200)]
 
     reads = []
     for _ in range(rng.choice([0, 1, 1, 2, 3])):
@@ -1369,7 +1482,7 @@ def gen_cases(rng, n, big=1):
     cases = []
     for _ in range(n):
         r = rng.random()
-        if r < 0.34:
+        if r < 0.30:
             c = {'kind': 'html', 'text': G.soup(rng)}
             if rng.random() < 0.2:
                 c['sched'] = [rng.choice([1, 2, 3, 5, 7, 34, 35]) for _ in range(rng.randrange(1, 6))]
@@ -1378,9 +1491,14 @@ def gen_cases(rng, n, big=1):
             if len(c['text']) <= 60 and rng.random() < 0.3:
                 c['splits'] = True
             cases.append(c)
-        elif r < 0.40:
+        elif r < 0.32:
             doc = G.valid_html_doc(rng)
             cases.append({'kind': 'html', 'text': doc[:rng.randrange(len(doc) + 1)]})
+        elif r < 0.40:
+            c = {'kind': 'html', 'text': G.pressure_html(rng)}
+            if len(c['text']) <= 60:
+                c['splits'] = True
+            cases.append(c)
         elif r < 0.44:
             cases.append({'kind': 'html', 'text': ''.join(G.rand_char(rng) for _ in range(rng.randrange(0, 30)))})
         elif r < 0.47:
@@ -1401,6 +1519,9 @@ def gen_cases(rng, n, big=1):
             else:
                 for _ in range(rng.choice([1, 1, 2])):
                     text = mutate(rng, text)
+            if rng.random() < 0.04 and text:
+                i = rng.randrange(len(text))
+                text = text[:i] + rng.choice(['\ud800', '\udfff', '\udc00\ud800']) + text[i:]      # not a character
             if in_attr_entity_zone(text):
                 continue
             cases.append({'kind': 'xml-text', 'text': text})
@@ -1408,6 +1529,7 @@ def gen_cases(rng, n, big=1):
             cases.append({'kind': 'syn-xml', 'script': gen_syn_xml(rng)})
     for _ in range(big):
         cases.append({'kind': 'html', 'text': G.big_html(rng, rng.choice([4090, 4200, 8300, 12400]))})
+        cases.append({'kind': 'html', 'text': G.boundary_html(rng, rng.choice([4096, 4096, 8192]))})
         doc = G.gen_xml_tree(rng)
         filler = {'k': 'e', 'name': ['', 'filler'], 'ns': [], 'attrs': [], 'kids': [
             {'k': 't', 'pieces': [['raw', 'é' * rng.randrange(1, 40)], ['raw', 'x' * rng.choice([4000, 4090, 8100])], ['ent', 'nbsp', '\xa0']]}]}
@@ -1431,7 +1553,7 @@ def prefix_cases(rng, ndocs):
                 continue
             for i in range(len(text) + 1):
                 if not in_attr_entity_zone(text[:i]):
-                    cases.append({'kind': 'xml-text', 'text': text[:i]})
+                    cases.append({'kind': 'xml-text', 'text': text[:i], 'light': True})
     return cases
 
 
@@ -1439,7 +1561,7 @@ def prefix_cases(rng, ndocs):
 # one case: oracle + what to send to the model
 
 HTML_ARITY = {'st': 5, 'se': 5, 'et': 4, 'd': 4, 'c': 4, 'pi': 4, 'cr': 4, 'er': 4, 'decl': 4}
-XML_ARITY = {'se': 5, 'ee': 4, 'cd': 4, 'xd': 6, 'dt': 7, 'ns': 5, 'ens': 4, 'sc': 3, 'ec': 3, 'pi': 5, 'cm': 4, 'df': 4, 'xerr': 3}
+XML_ARITY = {'se': 5, 'ee': 4, 'cd': 4, 'xd': 6, 'dt': 7, 'ns': 5, 'ens': 4, 'sc': 3, 'ec': 3, 'pi': 5, 'cm': 4, 'df': 4, 'xerr': 3, 'xenc': 3}
 
 
 def valid_script(script, arity):
@@ -1451,7 +1573,7 @@ def valid_script(script, arity):
             return len(it) >= 2 and it[1] in EXC
         if arity.get(it[0]) != len(it):
             return False
-        if it[0] != 'xerr' and not (isinstance(it[-1], int) and isinstance(it[-2], int)):
+        if it[0] not in ('xerr', 'xenc') and not (isinstance(it[-1], int) and isinstance(it[-2], int)):
             return False
         if it[0] in ('st', 'se') and arity is HTML_ARITY:
             return isinstance(it[1], str) and all(isinstance(a, list) and len(a) == 2 and isinstance(a[0], str) for a in it[2])
@@ -1545,6 +1667,8 @@ def oracle_case(case):
         return oracle_syn_xml(case)
     if k == 'raw':
         return oracle_raw(case)
+    if k == 'env':
+        return None      # correspondence only: str.lower / stripentities against their models
     raise ValueError(k)
 
 
@@ -1607,11 +1731,18 @@ def model_jobs(case):
         jobs.append(('html-scripted', script, line, outcome_wire(ev, ex), True))
     elif k in ('xml-tree', 'xml-text'):
         text = G.write_xml(case['doc'], random.Random(case.get('wseed', 0))) if k == 'xml-tree' else case['text']
-        plans = [lambda: io.StringIO(text)]
-        if not has_surrogate(text):
-            plans.append(lambda: G.ChunkReader(text, 7 if len(text) < 3000 else 4095))
-        for mk in plans:
-            script, ev, ex, modelled = record_xml(mk, encoding='utf-8')
+        # a character source (no `encoding` argument: the parser finds out by itself), the same in small chunks the way
+        # XML() passes it, and the bytes of the document in the encoding its declaration names (also an unknown one)
+        plans = [(lambda: io.StringIO(text), None), (lambda: G.ChunkReader(text, 7 if len(text) < 3000 else 4095), 'utf-8')]
+        data = xml_bytes(text)
+        if data is not None:
+            plans.append((lambda: io.BytesIO(data), None))
+        if case.get('light'):
+            plans = [plans[len(text) % len(plans)]]      # every prefix of a document: one kind of source each
+        elif len(plans) == 3:
+            plans = [plans[0], plans[1 + len(text) % 2]]
+        for mk, enc in plans:
+            script, ev, ex, modelled = record_xml(mk, encoding=enc)
             jobs.append(('xml-recorded', script, xml_line(script) if modelled else None, outcome_wire(ev, ex), True))
             if ex is None and modelled:
                 # Expat's side of xml_layer_tree: for a document it accepts, its calls are a forest traversal
@@ -1630,9 +1761,56 @@ def model_jobs(case):
 def script_stats(res, stream, script):
     nb = len([r for r in script['reads'] if r[0] == 't'])
     res.count('%s:batches:%s' % (stream, '0' if nb == 0 else '1' if nb == 1 else '2-9' if nb < 10 else '10+'))
-    for items in [r[1] for r in script['reads'] if r[0] == 't'] + [script['close']]:
+    batches = [r[1] for r in script['reads'] if r[0] == 't'] + [script['close']]
+    for items in batches:
         for it in items:
             res.count('%s:cb:%s' % (stream, it[0]))
+    if not stream.startswith('html'):
+        return
+    # shapes the tie should see often enough (counted per script)
+    shapes = set()
+    open_tags = []
+    for bi, items in enumerate(batches):
+        if items and bi == len(batches) - 1:
+            shapes.add('close-batch-makes-callbacks')
+        if items and bi + 1 < len(batches) and batches[bi + 1] and items[-1][0] == 'd' and batches[bi + 1][0][0] == 'd':
+            shapes.add('text-cut-at-batch-boundary')
+        if items and bi + 1 < len(batches) - 1 and batches[bi + 1] and items[-1][0] == 'd' and batches[bi + 1][0][0] in ('st', 'se', 'et', 'c', 'pi', 'decl'):
+            shapes.add('markup-begins-a-batch-after-text')
+        for it in items:
+            k = it[0]
+            if k in ('st', 'se'):
+                for n, _ in it[2]:
+                    if '{' in n or '}' in n:
+                        shapes.add('attr-name-with-brace')
+                    if ':' in n:
+                        shapes.add('attr-name-with-colon')
+                if '{' in it[1] or '}' in it[1] or ':' in it[1]:
+                    shapes.add('tag-name-with-brace-or-colon')
+            if k == 'se' and it[1] not in VOID:
+                shapes.add('selfclosing-nonvoid')
+                if it[1].lower() in [t.lower() for t in open_tags]:
+                    shapes.add('selfclosing-nonvoid-in-same-named-ancestor')
+            if k == 'st' and it[1] not in VOID:
+                if it[1].lower() in [t.lower() for t in open_tags]:
+                    shapes.add('starttag-in-same-named-ancestor')
+                open_tags.append(it[1])
+            elif k == 'et' and it[1] not in VOID:
+                low = [t.lower() for t in open_tags]
+                if it[1].lower() in low:
+                    i = len(low) - 1 - low[::-1].index(it[1].lower())
+                    if i != len(low) - 1:
+                        shapes.add('endtag-closes-several')
+                    del open_tags[i:]
+                else:
+                    if open_tags:
+                        shapes.add('endtag-without-match-closes-all')
+                    open_tags = []
+    if open_tags:
+        shapes.add('left-open-at-end')
+    res.count('%s:scripts' % stream)
+    for sh in shapes:
+        res.count('%s:shape:%s' % (stream, sh))
 
 
 def nontrivial_key(case):
@@ -1674,6 +1852,9 @@ def process(cases, res, do_oracle=True):
                 res.count('%s:no-model-counterpart' % stream)
                 continue
             pending.append((stream, c, line, real))
+            if stream.startswith('html'):
+                for st2, arg, line2, real2 in env_jobs(script):
+                    pending.append((st2, {'kind': 'env', 'fn': st2, 'arg': arg}, line2, real2))
     for k_, v_ in STATS.items():
         res.count(k_, v_)
     STATS.clear()
@@ -1691,6 +1872,28 @@ def process(cases, res, do_oracle=True):
             res.disagreements.append({'stream': stream, 'case': c, 'model': repr(model)[:600], 'real': repr(real)[:600]})
 
 
+def process_env(jobs, res):
+    answers = proto.run_lines([j[2] for j in jobs])
+    for (stream, arg, line, real), ans in zip(jobs, answers):
+        res.evaluations += 1
+        try:
+            model = proto.dec(ans)
+        except Exception:   # noqa
+            model = Atom(ans)
+        res.streams[stream] = res.streams.get(stream, 0) + 1
+        if stream == 'env-qname':
+            res.count('env-qname:' + ('leading-braces-and-separator' if arg.startswith('{{') and '}' in arg else
+                                      'separator-in-local-part' if arg.lstrip('{').count('}') > 1 else
+                                      'namespaced' if '}' in arg else 'plain'))
+        elif stream == 'env-lower':
+            res.count('env-lower:' + ('sigma-final' if '\u03c2' in real and '\u03a3' in arg else 'sigma' if '\u03a3' in arg else
+                                      'changed' if real != arg else 'unchanged'))
+        else:
+            res.count('env-strip:' + ('changed' if real != [Atom('ok'), arg] else 'unchanged'))
+        if model != real:
+            res.disagreements.append({'stream': stream, 'case': {'kind': 'env', 'fn': stream, 'arg': arg}, 'model': repr(model)[:600], 'real': repr(real)[:600]})
+
+
 def shard(arg):
     seed, idx, n, nprefix, big = arg
     rng = random.Random('%s/%s/C07' % (seed, idx))
@@ -1698,6 +1901,7 @@ def shard(arg):
     cases = gen_cases(rng, n, big)
     cases += prefix_cases(rng, nprefix)
     process(cases, res)
+    process_env(gen_env_jobs(rng, max(20, n // 4)), res)
     res.samples = [c for c in cases if c['kind'] in ('html', 'xml-text') and len(json.dumps(c)) < 300][:2]
     return res
 
@@ -1705,7 +1909,7 @@ def shard(arg):
 EXH_HTML = [['st', 'a', []], ['st', 'br', [['x', None]]], ['st', 'B', [['h', '&amp;#1114112;']]], ['et', 'a'], ['et', 'b'], ['et', 'br'],
             ['se', 'p', []], ['d', 'x'], ['d', ''], ['c', 'k'], ['pi', 't d'], ['er', 'nbsp'], ['raise', 'ValueError']]
 EXH_XML = [['se', 'u}a', [['b', 'v']]], ['ee', 'u}a'], ['cd', 'x'], ['cd', 'y\n'], ['ns', None, 'u'], ['ens', None], ['sc'], ['ec'],
-           ['df', '&nbsp;', 2, 3], ['df', '&junk;', 4, 5], ['df', ' ', 6, 7], ['xerr', 8, 9]]
+           ['df', '&nbsp;', 2, 3], ['df', '&junk;', 4, 5], ['df', ' ', 6, 7], ['xerr', 8, 9], ['xenc', 1, 30]]
 
 
 def exhaustive_shard(arg):
@@ -1725,7 +1929,7 @@ def exhaustive_shard(arg):
                 items = []
                 for j, a in enumerate(tup):
                     it = list(alphabet[a])
-                    if it[0] not in ('raise', 'xerr', 'df'):
+                    if it[0] not in ('raise', 'xerr', 'xenc', 'df'):
                         it = it + [j + 1, 3 * j]
                     items.append(it)
                 cuts = [None] + list(range(1, n))
@@ -1761,6 +1965,19 @@ FIXED = [
     {'kind': 'xml-text', 'text': '<a><b></a></b>'},
     {'kind': 'xml-text', 'text': '<a>x</a><b/>'},
     {'kind': 'xml-text', 'text': '<a xmlns:p="u"><q:b/></a>'},
+    {'kind': 'xml-text', 'text': '<a>\ud800</a>'},
+    {'kind': 'xml-text', 'text': '<a>\n\n  x\udfff</a>'},
+    {'kind': 'xml-text', 'text': '<a b="\ud800"/>'},
+    {'kind': 'xml-text', 'text': '<?xml version="1.0" encoding="uf-8"?>\n<a>\xe9</a>'},
+    {'kind': 'xml-text', 'text': '<?xml version="1.0" encoding="shift_jis"?><a>x</a>'},
+    {'kind': 'xml-text', 'text': '<?xml version="1.0" encoding="iso-8859-1"?><a>\xe9</a>'},
+    {'kind': 'xml-text', 'text': '<?xml version="1.0" encoding="utf-16"?><a>\xe9\u20ac</a>'},
+    {'kind': 'xml-text', 'text': '<!DOCTYPE a [<!ENTITY e SYSTEM "f">]>\n<a>x&e;y&nbsp;</a>'},
+    {'kind': 'xml-text', 'text': '<!DOCTYPE a [<!ENTITY e SYSTEM "f">]>\n<a b="&e;"/>'},
+    {'kind': 'xml-text', 'text': '<!DOCTYPE a SYSTEM "x.dtd" [<!ENTITY e PUBLIC "p" "f">]><a>&e;</a>'},
+    {'kind': 'syn-html', 'script': {'reads': [['t', [['st', 'a\u03a3', [], 1, 0], ['st', 'b', [['h', '&#x110000;&amp;&junk;']], 1, 4], ['et', 'A\u03c2', 1, 9], ['d', 'x', 1, 14]]]], 'close': []}},
+    {'kind': 'syn-html', 'script': {'reads': [['t', [['st', 'a\u03c3', [], 1, 0], ['st', 'b', [], 1, 4], ['et', 'A\u03a3', 1, 9]]]], 'close': []}},
+    {'kind': 'syn-xml', 'script': {'reads': [['t', [['xd', '1.0', 'uf-8', -1, 1, 0], ['xenc', 1, 30]]]], 'close': []}},
     {'kind': 'syn-html', 'script': {'reads': [['t', [['st', '{br', [], 1, 0], ['d', 'x', 1, 5]]]], 'close': []}},
     {'kind': 'syn-html', 'script': {'reads': [['t', [['st', 'BR', [], 1, 0], ['et', 'br', 1, 4], ['et', 'Br', 2, 0]]]], 'close': []}},
     {'kind': 'syn-html', 'script': {'reads': [['t', [['st', 'a', [], 1, 0]]], ['t', [['d', 'x', 1, 3], ['raise', 'ValueError']]]], 'close': []}},
